@@ -21,6 +21,22 @@ Richardson extrapolation; cross-checked by the complex-step derivative of the te
   rigid.*             contracts on every call of transform_to_local/global_coords (also the internal ones) against
                       R (X - P) and R X + P, round trip, preserved distances and dot products, det R = +1
 
+Hardening pass (blind-spot classes of HARDENING.md).  The frame-transform contracts judge against copies of their arguments
+taken before the call.
+  B histories      a Surface object is traced, then a public attribute is changed on the *same object* (R reassigned / edited in
+                   place / set to None / set from None, P reassigned / edited in place, R and P, typ + n, n, params['c','k','dx',
+                   'dy']) or the trace arguments change (wavelength with a dispersive index, n_ambient), or it is simply traced
+                   many times; the later trace is judged by the full pass oracle with the new attributes and must equal the trace
+                   through a fresh Surface built with the same attributes
+  A repeat         the same ray arrays passed again, rays as F-ordered / strided / read-only arrays, lists, tuples; the history
+                   arrays of an earlier trace edited by the caller; intersect / reflect / refract called twice with the same
+                   arrays; one position vector handed to two Surface constructors
+  C configuration  config.precision = 32 (surfaces store P and R as float32) with float32 and float64 rays, float32 rays under
+                   precision 64 (single-precision thresholds, 3 decades above measured round-off), then the same prescription
+                   rebuilt and traced under precision 64 at full tolerance (keys carry /precision=32, /float32-rays,
+                   /after-precision-32)
+  D regimes        prescriptions of 5..8 surfaces, |k| up to 10, strongly curved (R 4..25) and nearly flat (R 1e4..1e6) surfaces
+
 Violation keys are `C19/<stage>/<clause>/<class labels>`; the class labels are computed from the failing rays
 (normal class: axial / sloped / unit; frame class; surface family; NaN class by geometric predicate).
 """
@@ -29,6 +45,7 @@ import math
 import numpy as np
 
 from ..contracts import attach, detach_all
+from ..core import Ctx
 from ..refmodels import rayphysics as rp
 
 RULE = ('one case = one prescription (1-4 surfaces) + one ray bundle; surface family x interaction (reflect, refract '
@@ -37,7 +54,9 @@ RULE = ('one case = one prescription (1-4 surfaces) + one ray bundle; surface fa
         'are random; every bundle contains the exactly on-axis ray, axis-parallel rays, skew rays through the vertex, a '
         'collimated grid, random skew rays and steep rays (30-40 deg); rays are aimed at points inside the aperture so '
         'they geometrically hit; a case is non-trivial when at least one ray was decided by a law monitor; '
-        'distinct = distinct descriptor (classes + parameters + sub-seed)')
+        'distinct = distinct descriptor (classes + parameters + sub-seed).  Hardening workloads: surface histories (13 kinds of '
+        'change x 5 families, second trace aimed at the surface in its new frame), ray forms (8 forms x 5 families), '
+        'configuration (4 phases per prescription), regimes (long prescriptions, extreme curvature / conic constant)')
 ASSUMPTIONS = ['the surface is the graph z = sag(x,y) of the library\'s own sag routine in the surface frame; for plane / '
                'sphere / conic / off-axis conic that sag is additionally required to equal the textbook conic formula '
                'c s/(1+sqrt(1-(1+k)c^2 s)), s=(x+dx)^2+(y+dy)^2',
@@ -47,11 +66,20 @@ ASSUMPTIONS = ['the surface is the graph z = sag(x,y) of the library\'s own sag 
                'excluded and counted',
                'refraction is in domain for incidence on the +z side of the local normal (S.n > 0), below 0.95 of the '
                'critical angle; grazing incidence (cos i < 0.3) is excluded and counted',
-               'the index of the medium before a surface is n_ambient or n(wvl) of the last refracting surface']
+               'the index of the medium before a surface is n_ambient or n(wvl) of the last refracting surface',
+               'P, R, typ, n and params of a Surface are public attributes read by raytrace at trace time: after a change the '
+               'surface must trace like a fresh Surface built with the same attributes; raytrace is a deterministic function of '
+               'the values of its arguments and must accept read-only arrays',
+               'single precision (float32 rays, or any trace while config.precision is 32: surfaces then hold float32 P and R): '
+               'thresholds 1e-3 (x scale) for positions, unit length and the laws, 1e-4 for frame transforms and stored '
+               'rotations, measured round-off 8e-8..1e-6; a hit within 1e-5 x aperture of the local origin counts as the vertex '
+               'ray there']
 REQUIRED = ['hit.on-ray', 'hit.on-surface', 'out.unit-length', 'reflect.law', 'refract.snell', 'refract.coplanar',
             'refract.side', 'trace.finite', 'surface.sag-definition', 'rigid.to_local', 'rigid.to_global',
             'rigid.roundtrip', 'rigid.R-proper', 'direct.intersect', 'direct.reflect', 'direct.refract',
-            'multi-surface.pass']
+            'multi-surface.pass', 'history.vs-fresh-surface', 'repeat.same-rays', 'repeat.direct', 'repeat.shared-P',
+            'precision32.cases', 'float32-rays.cases', 'precision32-then-64.cases', 'regime.long-prescription',
+            'regime.extreme-shape']
 
 CTX = None
 WVL = 0.6328
@@ -63,6 +91,58 @@ TOL_INPUT = 1e-13   # | |S_j| - 1 | of the ray entering a pass (else the pass is
 TOL_ORACLE = 1e-10  # oracle self-consistency (else excluded)
 TOL_RIGID = 1e-12   # x scale, frame transforms vs own algebra   (observed <= 2e-16 x scale)
 LONG_PATH = 32.0    # path from the local vertex plane to the hit beyond which ulp(s) approaches the default 100 eps
+TOL_RPROPER = 1e-13  # orthonormality / det of a stored rotation
+KEYSUF = ''          # class label appended to the contract keys by the configuration workloads
+
+VERTEX_TOL = 1e-12   # x aperture: a hit this close to the local origin is 'the ray through the vertex'
+TOL64 = dict(TOL_POS=1e-9, TOL_UNIT=1e-10, TOL_LAW=1e-9, TOL_INPUT=1e-13, TOL_RIGID=1e-12, TOL_RPROPER=1e-13, VERTEX_TOL=1e-12)
+# single precision (float32 rays, or anything while prysm.conf.config.precision is 32: surfaces then store P and R as float32):
+# measured over 300 prescriptions x 64 rays: on-ray 8e-8 x scale, on-surface 1e-6 x scale, | |S'|-1 | 3e-7, laws 3e-7,
+# frame transforms 1e-7 x scale, stored rotation orthonormal to 1e-7; thresholds 3 decades above
+# (a float32 ray aimed at the vertex lands 1e-7..1e-6 from it: VERTEX_TOL 1e-5 keeps the mechanism label of the r=0 singularity)
+TOL32 = dict(TOL_POS=1e-3, TOL_UNIT=1e-3, TOL_LAW=1e-3, TOL_INPUT=1e-5, TOL_RIGID=1e-4, TOL_RPROPER=1e-4, VERTEX_TOL=1e-5)
+
+
+class tolerances:
+    """with tolerances(TOL32, '/precision=32'): the clause thresholds (module globals read at call time) and the key suffix of
+    the frame-transform contracts are swapped for the block."""
+
+    def __init__(self, tols, suffix=''):
+        self.tols, self.suffix = tols, suffix
+
+    def __enter__(self):
+        g = globals()
+        self.old = {k: g[k] for k in self.tols}
+        self.oldsuf = g['KEYSUF']
+        g.update(self.tols)
+        g['KEYSUF'] = self.suffix
+
+    def __exit__(self, *a):
+        g = globals()
+        g.update(self.old)
+        g['KEYSUF'] = self.oldsuf
+
+
+class Tagged:
+    """View of the run context that appends a class label to every violation key raised through it."""
+
+    def __init__(self, ctx, suffix):
+        self._ctx = ctx
+        self._suffix = suffix
+
+    def __getattr__(self, k):
+        return getattr(self._ctx, k)
+
+    # mechanisms that do not depend on the configuration keep their plain key (they are ledger entries)
+    PLAIN = ('C19/vertex-hit-nan/qtype', 'C19/newton-nonconvergence/start-outside-sag-domain')
+
+    def violation(self, key, what, desc=None, **detail):
+        self._ctx.violation(key if key in self.PLAIN else key + self._suffix, what, desc, **detail)
+
+    close = Ctx.close
+    equal = Ctx.equal
+    require = Ctx.require
+    guard = Ctx.guard
 
 
 # ================================================================================================ surfaces
@@ -206,14 +286,21 @@ def rand_frame(rng, form, gentle=False):
     return P, rp.rotation_from_angles(*ang)
 
 
-def rand_shape(rng, family):
-    """Shape parameters of one surface + aperture radius a (all rays are aimed inside it)."""
+def rand_shape(rng, family, regime=None):
+    """Shape parameters of one surface + aperture radius a (all rays are aimed inside it).  regime: None (R 25..400,
+    k in [-3,2]) | 'strong-curvature' (R 4..25) | 'nearly-flat' (R 1e4..1e6) | 'extreme-conic' (k in [-10,-3] or [2,8])."""
     if family == 'plane':
         return {'a': float(rng.uniform(5, 40))}
     sign = -1.0 if rng.integers(2) else 1.0
     Rc = float(np.round(rng.uniform(25, 400), 2))
+    if regime == 'strong-curvature':
+        Rc = float(np.round(rng.uniform(4, 25), 2))
+    elif regime == 'nearly-flat':
+        Rc = float(np.round(10 ** rng.uniform(4, 6), 0))
     c = sign / Rc
     k = float([0.0, -1.0, float(np.round(rng.uniform(-3, 2), 3)), float(np.round(rng.uniform(-3, 2), 3))][int(rng.integers(4))])
+    if regime == 'extreme-conic':
+        k = float(np.round(rng.uniform(-10, -3) if rng.integers(2) else rng.uniform(2, 8), 3))
     reach = min(0.6 * Rc, 0.6 * Rc / math.sqrt(max(1.0 + k, 1e-12)), 60.0)   # slope <= 0.75, phi >= 0.8
     if family == 'conic':
         ctor = 'conic'
@@ -382,7 +469,7 @@ def check_pass(ctx, spec, Pin, Sin, Pout, Sout, n1, desc, stage='raytrace', j=0)
     gx0, gy0 = lib_gradient(spec, X0[:, 0], X0[:, 1])
     start_normal_nan = ~start_outside & ~(np.isfinite(gx0) & np.isfinite(gy0))   # sag real there, library normal is not
     long_path = np.abs(sroot - s0) >= LONG_PATH
-    vertex_hit = r_root <= 1e-12 * max(a, 1.0)
+    vertex_hit = r_root <= VERTEX_TOL * max(a, 1.0)
     # oracle normal at the oracle's own intersection (used for TIR/grazing decisions when the library is NaN)
     h = 0.02 * a
     zxr, zyr, errr = rp.gradient_richardson(sag, Xr[:, 0], Xr[:, 1], h, levels=4)
@@ -561,8 +648,23 @@ def check_pass(ctx, spec, Pin, Sin, Pout, Sout, n1, desc, stage='raytrace', j=0)
 
 
 # ================================================================================================ contracts
-def _post_local(token, args, kwargs, result):
+def _pre_rigid(args, kwargs):
+    """Copies of the array arguments taken before the call (a transform that writes into its inputs must not drag the
+    oracle along)."""
     a = dict(zip(['XYZ', 'P', 'S', 'R'], args)); a.update(kwargs)
+    return {k: (None if v is None else np.array(v)) for k, v in a.items()}
+
+
+def _rigid_tol(*arrays):
+    """float32 operands (rays or a surface stored under precision 32) get the single-precision threshold."""
+    if any(getattr(v, 'dtype', None) == np.float32 for v in arrays if v is not None):
+        return max(TOL_RIGID, TOL32['TOL_RIGID'])
+    return TOL_RIGID
+
+
+def _post_local(token, args, kwargs, result):
+    a = token
+    tolr = _rigid_tol(a['XYZ'], a['P'], a['S'], a.get('R'))
     XYZ, P, S, R = np.asarray(a['XYZ'], dtype=float), np.asarray(a['P'], dtype=float), np.asarray(a['S'], dtype=float), a.get('R')
     if not (np.isfinite(XYZ).all() and np.isfinite(S).all()):
         return
@@ -571,14 +673,15 @@ def _post_local(token, args, kwargs, result):
     sc = max(1.0, float(np.max(np.abs(XYZ))), float(np.max(np.abs(P))))
     cls = 'R=None' if R is None else 'R'
     d = {'fn': 'transform_to_local_coords', 'shape': list(XYZ.shape), 'class': cls}
-    CTX.close('rigid.to_local', result[0], Pl, f'C19/rigid/to_local/position/{cls}', 'transform_to_local_coords != R (X - P)', d,
-              rtol=0, atol=TOL_RIGID * sc)
-    CTX.close('rigid.to_local', result[1], Sl, f'C19/rigid/to_local/direction/{cls}', 'transform_to_local_coords: S != R S', d,
-              rtol=0, atol=TOL_RIGID)
+    CTX.close('rigid.to_local', result[0], Pl, f'C19/rigid/to_local/position/{cls}' + KEYSUF, 'transform_to_local_coords != R (X - P)', d,
+              rtol=0, atol=tolr * sc)
+    CTX.close('rigid.to_local', result[1], Sl, f'C19/rigid/to_local/direction/{cls}' + KEYSUF, 'transform_to_local_coords: S != R S', d,
+              rtol=0, atol=tolr)
 
 
 def _post_global(token, args, kwargs, result):
-    a = dict(zip(['XYZ', 'P', 'S', 'R'], args)); a.update(kwargs)
+    a = token
+    tolr = _rigid_tol(a['XYZ'], a['P'], a['S'], a.get('R'))
     XYZ, P, S, R = np.asarray(a['XYZ'], dtype=float), np.asarray(a['P'], dtype=float), np.asarray(a['S'], dtype=float), a.get('R')
     if not (np.isfinite(XYZ).all() and np.isfinite(S).all()):
         return
@@ -590,10 +693,10 @@ def _post_global(token, args, kwargs, result):
     sc = max(1.0, float(np.max(np.abs(XYZ))), float(np.max(np.abs(P))))
     cls = 'R=None' if R is None else 'R'
     d = {'fn': 'transform_to_global_coords', 'shape': list(XYZ.shape), 'class': cls}
-    CTX.close('rigid.to_global', result[0], Pg, f'C19/rigid/to_global/position/{cls}', 'transform_to_global_coords != R X + P', d,
-              rtol=0, atol=TOL_RIGID * sc)
-    CTX.close('rigid.to_global', result[1], Sg, f'C19/rigid/to_global/direction/{cls}', 'transform_to_global_coords: S != R S', d,
-              rtol=0, atol=TOL_RIGID)
+    CTX.close('rigid.to_global', result[0], Pg, f'C19/rigid/to_global/position/{cls}' + KEYSUF, 'transform_to_global_coords != R X + P', d,
+              rtol=0, atol=tolr * sc)
+    CTX.close('rigid.to_global', result[1], Sg, f'C19/rigid/to_global/direction/{cls}' + KEYSUF, 'transform_to_global_coords: S != R S', d,
+              rtol=0, atol=tolr)
 
 
 COUNTERS = {'intersect': [0], 'reflect': [0], 'refract': [0]}
@@ -601,8 +704,8 @@ COUNTERS = {'intersect': [0], 'reflect': [0], 'refract': [0]}
 
 def install():
     from prysm.x.raytracing import spencer_and_murty as sm
-    attach(sm, 'transform_to_local_coords', post=_post_local)
-    attach(sm, 'transform_to_global_coords', post=_post_global)
+    attach(sm, 'transform_to_local_coords', pre=_pre_rigid, post=_post_local)
+    attach(sm, 'transform_to_global_coords', pre=_pre_rigid, post=_post_global)
     for k in COUNTERS:
         COUNTERS[k][0] = 0
         attach(sm, k, counter=COUNTERS[k])
@@ -614,8 +717,8 @@ WAYS = ['refl', 'refr-in', 'refr-out']
 FORMS = ['none', 'decentred', 'angles', 'matrix']
 
 
-def make_spec(rng, family, way, form, n_before, gentle=False, frame=None):
-    shape = rand_shape(rng, family)
+def make_spec(rng, family, way, form, n_before, gentle=False, frame=None, regime=None):
+    shape = rand_shape(rng, family, regime) if regime else rand_shape(rng, family)
     P_arg, R_arg = frame if frame is not None else rand_frame(rng, form, gentle)
     typ = 'refl' if way == 'refl' else ('eval' if way == 'eval' else 'refr')
     n_after = pick_index(rng, n_before, 'in' if way == 'refr-in' else 'out') if typ == 'refr' else None
@@ -639,21 +742,23 @@ def check_R(ctx, spec, desc):
         return True
     e, det = rp.orthonormality(spec.R)
     form = 'angles' if isinstance(spec.R_arg, tuple) else 'matrix'
-    return ctx.require('rigid.R-proper', e <= 1e-13 and abs(det - 1.0) <= 1e-13, f'C19/rigid/R-not-a-proper-rotation/{form}',
+    return ctx.require('rigid.R-proper', e <= TOL_RPROPER and abs(det - 1.0) <= TOL_RPROPER, f'C19/rigid/R-not-a-proper-rotation/{form}',
                        'the rotation stored on the Surface is not orthonormal with det +1', desc, orth_err=e, det=det)
 
 
-def single_surface_case(ctx, idx, family, way, form):
+def single_surface_case(ctx, idx, family, way, form, regime=None):
     from prysm.x.raytracing import spencer_and_murty as sm
-    rng = ctx.rng('single', idx)
+    rng = ctx.rng('single' if regime is None else 'single:' + regime, idx)
     n_amb = 1.0 if way != 'refr-out' else float(np.round(rng.uniform(1.45, 1.9), 4))
     if way == 'refr-in' and rng.integers(4) == 0:
         n_amb = 1.33
-    spec = make_spec(rng, family, way, form, n_amb)
+    spec = make_spec(rng, family, way, form, n_amb, regime=regime)
+    if regime:
+        ctx.observe('regime.extreme-shape')
     shape_form = 'single-ray' if idx % 7 == 3 else ('one-row' if idx % 7 == 5 else 'batch')   # 7 is coprime to the 60 class combinations
     spec.wvl = wvl = WAVELENGTHS[idx % len(WAVELENGTHS)] if idx % 3 == 0 else WVL
     desc = {'wl': 'single-surface', 'surface': spec.describe(), 'n_ambient': n_amb, 'wvl': wvl, 'rays': shape_form, 'sub': idx,
-            'class': f'{family}|{way}|{form}|{shape_form}'}
+            'class': f'{family}|{way}|{form}|{shape_form}' + (f'|{regime}' if regime else '')}
     # only calls into prysm are guarded (an exception there is a violation); an exception in the oracle is a harness error
     built = False
     gkey = f'C19/raytrace/{spec.typ}/{shape_form}/{"R=None" if spec.R_arg is None else "R"}'
@@ -865,10 +970,10 @@ def oracle_chief(spec, Pc, Sc, n1):
     return Xg[0], Sg[0]
 
 
-def multi_surface_case(ctx, idx):
+def multi_surface_case(ctx, idx, nsurf=None):
     from prysm.x.raytracing import spencer_and_murty as sm
-    rng = ctx.rng('multi', idx)
-    nsurf = int(2 + idx % 3)
+    rng = ctx.rng('multi' if nsurf is None else 'multi-long', idx)
+    nsurf = int(2 + idx % 3) if nsurf is None else int(nsurf)
     wvl = WAVELENGTHS[idx % len(WAVELENGTHS)] if idx % 3 == 1 else WVL
     n_amb = [1.0, 1.0, 1.33][int(rng.integers(3))]
     # chief ray
@@ -951,6 +1056,8 @@ def multi_surface_case(ctx, idx):
     desc = {'wl': 'multi-surface', 'surfaces': [s.describe() for s in specs], 'n_ambient': n_amb, 'wvl': wvl, 'bundle': kind, 'sub': idx,
             'class': f'multi|{len(specs)}|{seq}'}
     decided = 0
+    if len(specs) >= 5:
+        ctx.observe('regime.long-prescription')
     for s_ in specs:
         check_R(ctx, s_, desc)
     res = lib_call(ctx, 'C19/raytrace/multi-surface', desc, sm.raytrace, [s_.surf for s_ in specs], P, S, wvl, n_ambient=n_amb)
@@ -1021,6 +1128,321 @@ def hostile_case(ctx, idx):
     ctx.case(desc)
 
 
+# ================================================================================================ hardening workloads
+def _trace_one(ctx, spec, rng, n_amb, wvl, desc, gkey, nrand=16, ngrid=3, dtype=np.float64):
+    """One bundle aimed at `spec` in its *current* frame, traced through the real Surface object and judged pass by pass.
+    Returns (P, S, P_hist[1], S_hist[1], decided) or None."""
+    from prysm.x.raytracing import spencer_and_murty as sm
+    sag = lib_sag(spec)
+    Pl, Sl, C, _ = local_bundle(rng, spec, ngrid, nrand, sag)
+    P, S = rp.to_global(Pl, Sl, spec.V, spec.R)
+    P, S = P.astype(dtype), S.astype(dtype)
+    res = lib_call(ctx, gkey, desc, sm.raytrace, [spec.surf], P, S, wvl, n_ambient=n_amb)
+    if res is _RAISED:
+        return None
+    ph = np.asarray(res[0]).reshape(2, -1, 3)
+    sh = np.asarray(res[1]).reshape(2, -1, 3)
+    decided = check_pass(ctx, spec, P.astype(float), S.astype(float), ph[1], sh[1], n_amb, desc)
+    return P, S, ph[1], sh[1], decided
+
+
+def fresh_copy(spec, wvl):
+    """A new Surface built from scratch with the attributes `spec` has *now* (frame as data: vertex vector, rotation matrix)."""
+    f = Spec(spec.family, spec.typ, [float(v) for v in spec.V], None if spec.R is None else np.array(spec.R, dtype=float),
+             spec.n_after, **{k: (list(v) if isinstance(v, list) else v) for k, v in spec.par.items()})
+    f.wvl = wvl
+    build(f)
+    return f
+
+
+HIST_CHANGES = ['R-reassigned', 'R-modified-in-place', 'R-to-None', 'None-to-R', 'P-reassigned', 'P-modified-in-place', 'R-and-P',
+                'typ-and-n', 'n-reassigned', 'wavelength-changed', 'n_ambient-changed', 'params-changed', 'traced-many-times']
+
+
+def history_case(ctx, idx, family, change):
+    """A Surface object is traced, one of its public attributes is changed (or the trace arguments are), and it is traced
+    again: the later trace is judged by the full pass oracle with the new attributes and against a fresh Surface."""
+    from prysm.x.raytracing import spencer_and_murty as sm
+    from prysm.x.raytracing.surfaces import STYPE_REFRACT
+    rng = ctx.rng('history', idx)
+    needs_refr = change in ('n-reassigned', 'wavelength-changed', 'n_ambient-changed')
+    way = 'refr-in' if needs_refr else ['refl', 'refr-in', 'refr-out', 'refl'][idx % 4]
+    if change == 'typ-and-n':
+        way = 'refl'
+    if change == 'params-changed' and family.startswith('qtype'):
+        change = 'R-reassigned'            # a harness-built Q-type Surface has no params to change
+    if change == 'params-changed' and family == 'plane':
+        family = 'conic'
+    form = 'decentred' if change == 'None-to-R' else ['matrix', 'angles'][idx % 2]
+    n_amb = 1.0 if way != 'refr-out' else float(np.round(rng.uniform(1.45, 1.9), 4))
+    spec = make_spec(rng, family, way, form, n_amb)
+    wvl = WAVELENGTHS[idx % len(WAVELENGTHS)]
+    spec.wvl = wvl
+    desc = {'wl': 'surface-history', 'change': change, 'surface': spec.describe(), 'n_ambient': n_amb, 'wvl': wvl, 'sub': idx,
+            'class': f'history|{change}|{family}|{way}'}
+    gkey = f'C19/history/{change}/raytrace'
+    if lib_call(ctx, f'C19/build/{family}', desc, build, spec) is _RAISED or not check_R(ctx, spec, desc):
+        ctx.case(desc)
+        return
+    surf = spec.surf
+    first = _trace_one(ctx, spec, rng, n_amb, wvl, desc, gkey)
+    if first is None:
+        ctx.case(desc)
+        return
+    # ---- the change
+    newR = rp.rotation_from_angles(*[float(v) for v in np.round(rng.uniform(-180, 180, 3), 2)])
+    newP = np.array([float(v) for v in np.round(rng.uniform(-15, 15, 3), 3)])
+    wvl2, n_amb2 = wvl, n_amb
+    reps = 1
+    if change == 'R-reassigned':
+        surf.R = newR.copy(); spec.R = newR
+    elif change == 'R-modified-in-place':
+        surf.R = np.array(surf.R, dtype=float)        # the surface owns a writable matrix (angles form returns one too)
+        spec.R = np.array(surf.R, dtype=float)
+        second0 = _trace_one(ctx, spec, rng, n_amb, wvl, desc, gkey)      # traced once more with the matrix it will edit
+        try:
+            surf.R[...] = newR
+        except (ValueError, TypeError):     # a read-only stored matrix cannot be edited in place: reassigned instead, counted
+            ctx.skip('history: stored rotation matrix is not writable in place (reassigned instead)')
+            surf.R = newR.copy()
+        spec.R = newR
+        del second0
+    elif change == 'R-to-None':
+        surf.R = None; spec.R = None
+    elif change == 'None-to-R':
+        surf.R = newR.copy(); spec.R = newR
+    elif change == 'P-reassigned':
+        surf.P = newP.copy(); spec.V = newP
+    elif change == 'P-modified-in-place':
+        try:
+            surf.P[...] = newP
+        except (ValueError, TypeError):
+            ctx.skip('history: stored position vector is not writable in place (reassigned instead)')
+            surf.P = newP.copy()
+        spec.V = newP
+    elif change == 'R-and-P':
+        surf.R = newR.copy(); surf.P = newP.copy(); spec.R = newR; spec.V = newP
+    elif change == 'typ-and-n':
+        n2 = pick_index(rng, n_amb, 'in')
+        surf.typ = STYPE_REFRACT; surf.n = _index_fn(n2, wvl)
+        spec.typ = 'refr'; spec.n_after = n2
+    elif change == 'n-reassigned':
+        n2 = pick_index(rng, n_amb, 'in')
+        surf.n = _index_fn(n2, wvl); spec.n_after = n2
+    elif change == 'wavelength-changed':
+        wvl2 = [w for w in WAVELENGTHS if w != wvl][idx % 3]
+        spec.n_after = float(_index_fn(spec.n_after, wvl)(wvl2)); spec.wvl = wvl2
+    elif change == 'n_ambient-changed':
+        n_amb2 = 1.33 if n_amb == 1.0 else 1.0
+        if spec.n_after - n_amb2 < 0.1:
+            n_amb2 = n_amb
+    elif change == 'params-changed':
+        shp = rand_shape(rng, spec.family)
+        params = getattr(surf, 'params', None)
+        if not isinstance(params, dict) or not all(k in params for k in ('c', 'k')):
+            ctx.skip('history: the Surface exposes no params dict to edit (params-changed not applicable)')
+        else:
+            old_par = dict(spec.par)
+            for k in ('c', 'k', 'dx', 'dy'):
+                if k in shp and k in params:
+                    params[k] = shp[k]
+            # which surface is it now?  The statement speaks about the surface the object *is* (its sag); an implementation
+            # may read params at trace time (then it is the new conic) or have bound them at construction (then it still is
+            # the old one, and must behave like it in every respect); anything else is neither
+            probe = Spec(spec.family, spec.typ, 0.0, None, None, **shp)
+            xs = np.array([0.11, -0.23, 0.31]) * min(shp['a'], old_par['a'])
+            ys = np.array([0.17, 0.05, -0.29]) * min(shp['a'], old_par['a'])
+            zl = lib_sag(spec)(xs, ys)
+            z_new = np.real(probe.own_sag()(xs, ys))
+            z_old = np.real(spec.own_sag()(xs, ys))
+            if np.allclose(zl, z_new, rtol=0, atol=1e-12 * max(1.0, float(np.max(np.abs(z_new))))):
+                spec.par = dict(shp); spec.a = shp['a']
+            elif np.allclose(zl, z_old, rtol=0, atol=1e-12 * max(1.0, float(np.max(np.abs(z_old))))):
+                ctx.skip('history: the Surface bound its shape parameters at construction (params edits have no effect); judged as the old surface')
+            else:
+                ctx.violation('C19/history/params-changed/sag-is-neither-old-nor-new-conic',
+                              'after editing Surface.params the sag is neither the conic of the new nor of the old parameters', desc,
+                              lib=zl, new=z_new, old=z_old)
+                spec.par = dict(shp); spec.a = shp['a']
+    elif change == 'traced-many-times':
+        reps = ctx.pick(6, 40)
+    desc2 = dict(desc, after={'V': spec.V, 'R': spec.R, 'typ': spec.typ, 'n_after': spec.n_after, 'wvl': wvl2, 'n_ambient': n_amb2})
+    decided = first[4]
+    for rep in range(reps):
+        second = _trace_one(ctx, spec, rng, n_amb2, wvl2, desc2, gkey)
+        if second is None:
+            break
+        P, S, ph1, sh1, dec = second
+        decided += dec
+        # a fresh Surface with the same attributes traces the same rays to the same place
+        fr = None
+        with ctx.guard(f'C19/build/{family}', desc2):
+            fr = fresh_copy(spec, wvl2)
+        if fr is None:
+            break
+        res = lib_call(ctx, gkey, desc2, sm.raytrace, [fr.surf], P.copy(), S.copy(), wvl2, n_ambient=n_amb2)
+        if res is _RAISED:
+            break
+        sc = max(1.0, float(np.nanmax(np.abs(P))), float(np.max(np.abs(spec.V))))
+        ctx.close('history.vs-fresh-surface', ph1, np.asarray(res[0])[1], f'C19/history/{change}/position-differs-from-fresh-surface',
+                  'a Surface that was traced before and then had a public attribute changed sends the rays elsewhere than a fresh '
+                  'Surface with the same attributes (intersection points)', desc2, rtol=0, atol=1e-10 * sc)
+        ctx.close('history.vs-fresh-surface', sh1, np.asarray(res[1])[1], f'C19/history/{change}/direction-differs-from-fresh-surface',
+                  'a Surface that was traced before and then had a public attribute changed sends the rays elsewhere than a fresh '
+                  'Surface with the same attributes (outgoing directions)', desc2, rtol=0, atol=1e-10)
+    ctx.case(desc, nontrivial=decided > 0)
+
+
+RAY_FORMS = ['same-objects-again', 'F-order', 'strided-view', 'list', 'tuple-of-rows', 'read-only', 'result-edited-by-caller',
+             'shared-P-array-two-surfaces']
+
+
+def _ray_form(P, form):
+    if form == 'F-order':
+        return np.asfortranarray(P)
+    if form == 'strided-view':
+        big = np.zeros((P.shape[0], 7))
+        big[:, 1::2] = P
+        return big[:, 1::2]
+    if form == 'list':
+        return P.tolist()
+    if form == 'tuple-of-rows':
+        return tuple(tuple(float(v) for v in row) for row in P)
+    if form == 'read-only':
+        Q = P.copy()
+        Q.setflags(write=False)
+        return Q
+    return P
+
+
+def repeat_case(ctx, idx, family, form_ray):
+    """Class A: the same ray arrays passed again (same call, direct routines), other memory layouts / containers of the same
+    rays, read-only arrays, results edited by the caller, one position array shared by two Surface constructors."""
+    from prysm.x.raytracing import spencer_and_murty as sm
+    rng = ctx.rng('repeat', idx)
+    way = WAYS[idx % 3]
+    n_amb = 1.0 if way != 'refr-out' else float(np.round(rng.uniform(1.45, 1.9), 4))
+    spec = make_spec(rng, family, way, ['matrix', 'none', 'angles', 'decentred'][idx % 4], n_amb)
+    desc = {'wl': 'ray-forms', 'form': form_ray, 'surface': spec.describe(), 'n_ambient': n_amb, 'sub': idx,
+            'class': f'ray-form|{form_ray}|{family}|{way}'}
+    gkey = f'C19/raytrace/ray-form/{form_ray}'
+    if form_ray == 'shared-P-array-two-surfaces':
+        # the caller's position vector is handed to two constructors; the first surface is traced in between
+        Parr = np.array([float(v) for v in np.round(rng.uniform(-15, 15, 3), 3)])
+        keep = Parr.copy()
+        spec.P_arg = Parr
+        other = make_spec(rng, 'plane', 'refl', 'none', 1.0)
+        other.P_arg = Parr
+        if lib_call(ctx, f'C19/build/{family}', desc, build, other) is _RAISED:
+            ctx.case(desc)
+            return
+        o1 = _trace_one(ctx, other, rng, 1.0, WVL, desc, gkey)
+        spec.P_arg = Parr
+        if lib_call(ctx, f'C19/build/{family}', desc, build, spec) is _RAISED or o1 is None:
+            ctx.case(desc)
+            return
+        spec.V = keep.copy()                   # the oracle's frame: the vector the caller wrote down
+        ctx.observe('repeat.shared-P')
+        r1 = _trace_one(ctx, spec, rng, n_amb, WVL, desc, gkey)
+        ctx.case(desc, nontrivial=bool(r1 and r1[4]))
+        return
+    if lib_call(ctx, f'C19/build/{family}', desc, build, spec) is _RAISED or not check_R(ctx, spec, desc):
+        ctx.case(desc)
+        return
+    sag = lib_sag(spec)
+    Pl, Sl, C, _ = local_bundle(rng, spec, 3, 16, sag)
+    P, S = rp.to_global(Pl, Sl, spec.V, spec.R)
+    P0, S0 = P.copy(), S.copy()
+    base = lib_call(ctx, gkey, desc, sm.raytrace, [spec.surf], P, S, WVL, n_ambient=n_amb)
+    if base is _RAISED:
+        ctx.case(desc)
+        return
+    bph, bsh = np.array(base[0], dtype=float), np.array(base[1], dtype=float)
+    sc = max(1.0, float(np.max(np.abs(P0))), float(np.max(np.abs(spec.V))))
+    if form_ray == 'result-edited-by-caller':
+        base[0][...] = 0.0
+        base[1][...] = 7.0
+    Pa, Sa = (P, S) if form_ray in ('same-objects-again', 'result-edited-by-caller') else (_ray_form(P0, form_ray), _ray_form(S0, form_ray))
+    res = lib_call(ctx, gkey, desc, sm.raytrace, [spec.surf], Pa, Sa, WVL, n_ambient=n_amb)
+    if res is _RAISED:
+        ctx.case(desc)
+        return
+    ph, sh = np.asarray(res[0], dtype=float), np.asarray(res[1], dtype=float)
+    ctx.close('repeat.same-rays', ph, bph, f'C19/raytrace/ray-form/{form_ray}/positions-differ',
+              'raytrace gives other intersection points for the same rays passed again / in another container or memory layout', desc,
+              rtol=0, atol=1e-12 * sc)
+    ctx.close('repeat.same-rays', sh, bsh, f'C19/raytrace/ray-form/{form_ray}/directions-differ',
+              'raytrace gives other directions for the same rays passed again / in another container or memory layout', desc,
+              rtol=0, atol=1e-12)
+    # the later call judged by the oracle against the rays as they were written down
+    decided = check_pass(ctx, spec, P0, S0, ph[1], sh[1], n_amb, desc) if ph.shape == bph.shape else 0
+    # direct routines with the same local arrays, twice
+    Pl2, Sl2 = rp.to_local(P0, S0, spec.V, spec.R)
+    keep = (C >= 3)
+    Pl2, Sl2 = np.ascontiguousarray(Pl2[keep]), np.ascontiguousarray(Sl2[keep])
+    if len(Pl2):
+        i1 = lib_call(ctx, f'C19/direct/{family}', desc, sm.intersect, Pl2, Sl2, spec.surf.sag_normal)
+        i2 = lib_call(ctx, f'C19/direct/{family}', desc, sm.intersect, Pl2, Sl2, spec.surf.sag_normal)
+        if i1 is not _RAISED and i2 is not _RAISED:
+            ctx.close('repeat.direct', i2[0], np.asarray(i1[0]), 'C19/intersect/repeat/same-argument-objects',
+                      'intersect called twice with the same arrays gives two answers', desc, rtol=0, atol=1e-12 * sc)
+            r = np.asarray(i1[1], dtype=float)
+            fin = np.isfinite(r).all(1)
+            if fin.any():
+                Sf, rf = np.ascontiguousarray(Sl2[fin]), np.ascontiguousarray(r[fin])
+                a1 = lib_call(ctx, f'C19/direct/{family}', desc, sm.reflect, Sf, rf)
+                a2 = lib_call(ctx, f'C19/direct/{family}', desc, sm.reflect, Sf, rf)
+                b1 = lib_call(ctx, f'C19/direct/{family}', desc, sm.refract, 1.0, 1.5, Sf, rf)
+                b2 = lib_call(ctx, f'C19/direct/{family}', desc, sm.refract, 1.0, 1.5, Sf, rf)
+                a3 = lib_call(ctx, f'C19/direct/{family}', desc, sm.reflect, Sf, rf)
+                if not any(v is _RAISED for v in (a1, a2, a3, b1, b2)):
+                    want = rp.reflect_law(Sl2[fin], rp.unit(r[fin]))
+                    ctx.close('repeat.direct', a3, want, 'C19/reflect/repeat/after-refract-of-the-same-arrays',
+                              'reflect(S, r) after reflect and refract were called with the same arrays is not the mirror image of S',
+                              desc, rtol=0, atol=TOL_LAW)
+                    ctx.close('repeat.direct', b2, np.asarray(b1), 'C19/refract/repeat/same-argument-objects',
+                              'refract called twice with the same arrays gives two answers', desc, rtol=0, atol=1e-12)
+    ctx.case(desc, nontrivial=decided > 0)
+
+
+def precision_case(ctx, idx, family, way, form):
+    """prysm.conf.config.precision = 32 (surfaces store P and R in single precision) with float32 and float64 rays, float32
+    rays under precision 64, then the same prescription rebuilt and traced under precision 64 at full tolerance."""
+    from ..util import precision
+    n_amb = 1.0 if way != 'refr-out' else 1.7
+    wvl = WAVELENGTHS[idx % len(WAVELENGTHS)]
+    phases = [('precision=32', 32, np.float32, TOL32), ('precision=32', 32, np.float64, TOL32),
+              ('float32-rays', 64, np.float32, TOL32), ('after-precision-32', 64, np.float64, TOL64)]
+    for phase, bits, dtype, tols in phases:
+        rng = ctx.rng('precision', idx)           # the same prescription in every phase
+        spec = make_spec(rng, family, way, form, n_amb)
+        spec.wvl = wvl
+        desc = {'wl': 'precision', 'phase': phase, 'rays': np.dtype(dtype).name, 'surface': spec.describe(), 'n_ambient': n_amb,
+                'wvl': wvl, 'sub': idx, 'class': f'{phase}|{np.dtype(dtype).name}|{family}|{way}|{form}'}
+        t = Tagged(ctx, '/' + phase)
+        ctx.observe({'precision=32': 'precision32.cases', 'float32-rays': 'float32-rays.cases',
+                     'after-precision-32': 'precision32-then-64.cases'}[phase])
+        with precision(bits), tolerances(tols, '/' + phase):
+            global CTX
+            old = CTX
+            CTX = t
+            try:
+                if lib_call(t, f'C19/build/{family}', desc, build, spec) is _RAISED or not check_R(t, spec, desc):
+                    ctx.case(desc)
+                    continue
+                r1 = _trace_one(t, spec, rng, n_amb, wvl, desc, f'C19/raytrace/{spec.typ}/batch', dtype=dtype)
+            finally:
+                CTX = old
+        ctx.case(desc, nontrivial=bool(r1 and r1[4]))
+
+
+def install_monitors(ctx):
+    """For vp/pytest_monitors.py: the frame-transform contracts on the repository's own test traffic."""
+    global CTX
+    CTX = ctx
+    install()
+
+
 def run(ctx):
     global CTX
     CTX = ctx
@@ -1034,7 +1456,27 @@ def run(ctx):
 
 
 def _run(ctx):
-    reps = ctx.pick(8, 100)
+    # configuration first: its 32-bit phase must precede every 64-bit use of the same prescriptions in this process
+    combos = [(f, w, fo) for f in FAMILIES for w in WAYS for fo in FORMS]
+    for i in range(ctx.pick(40, 3000)):
+        if ctx.mine(i):
+            f, w, fo = combos[(i * 7) % len(combos)]
+            precision_case(ctx, i, f, w, fo)
+    i = -1
+    for rep in range(ctx.pick(1, 60)):
+        for change in HIST_CHANGES:
+            for f in FAMILIES:
+                i += 1
+                if ctx.mine(i):
+                    history_case(ctx, i, f, change)
+    i = -1
+    for rep in range(ctx.pick(1, 50)):
+        for form_ray in RAY_FORMS:
+            for f in FAMILIES:
+                i += 1
+                if ctx.mine(i):
+                    repeat_case(ctx, i, f, form_ray)
+    reps = ctx.pick(8, 200)
     combos = [(f, w, fo) for f in FAMILIES for w in WAYS for fo in FORMS]
     i = -1
     for rep in range(reps):
@@ -1043,21 +1485,34 @@ def _run(ctx):
             if ctx.mine(i):
                 single_surface_case(ctx, i, f, w, fo)
     i = -1
-    for rep in range(ctx.pick(6, 40)):
+    for rep in range(ctx.pick(6, 80)):
         for f in FAMILIES:
             for fo in ('none', 'matrix'):
                 i += 1
                 if ctx.mine(i):
                     direct_calls_case(ctx, i, f, fo)
-    for i in range(ctx.pick(80, 1600)):
+    for i in range(ctx.pick(80, 4000)):
         if ctx.mine(i):
             rigid_case(ctx, i)
-    for i in range(ctx.pick(200, 4000)):
+    for i in range(ctx.pick(200, 8000)):
         if ctx.mine(i):
             multi_surface_case(ctx, i)
-    for i in range(ctx.pick(24, 192)):
+    for i in range(ctx.pick(24, 400)):
         if ctx.mine(i):
             hostile_case(ctx, i)
+    # numeric regimes: extreme curvature / conic constant, prescriptions of 5..8 surfaces
+    curved = [f for f in FAMILIES if f != 'plane' and not f.startswith('qtype')]
+    i = -1
+    for rep in range(ctx.pick(1, 80)):
+        for regime in ('strong-curvature', 'nearly-flat', 'extreme-conic'):
+            for f in curved:
+                for w in WAYS:
+                    i += 1
+                    if ctx.mine(i):
+                        single_surface_case(ctx, i, f, w, FORMS[i % 4], regime=regime)
+    for i in range(ctx.pick(24, 1500)):
+        if ctx.mine(i):
+            multi_surface_case(ctx, i, nsurf=5 + i % 4)
 
 
 def replay(ctx, rec):
